@@ -54,11 +54,15 @@ class PropagateAnchorsIFilter(BaseIFilter):
     def set_context(self, *args, **kwargs):
         ctx = super().set_context(*args, **kwargs)
         ctx.processed = [set() for _ in range(len(ctx.glyphSets))]
+        # composites reached by recursion; kept apart from ctx.modified, which the base class
+        # uses to skip glyphs, so that they are still visited in the masters not yet processed
+        ctx.propagated = set()
         ctx.categories = OpenTypeCategories.load(self.getDefaultFont())
         return ctx
 
     def __call__(self, fonts, glyphSets=None, instantiator=None, **kwargs):
         modified = super().__call__(fonts, glyphSets, instantiator, **kwargs)
+        modified |= self.context.propagated
         if modified:
             logger.info("Glyphs with propagated anchors: %i" % len(modified))
         return modified
@@ -67,7 +71,7 @@ class PropagateAnchorsIFilter(BaseIFilter):
         modified = False
         if not any(glyph.components for glyph in glyphs):
             return modified
-        before = len(self.context.modified)
+        before = len(self.context.propagated)
         for i, (glyphSet, interpolatedLayer) in enumerate(
             zip_strict(self.context.glyphSets, self.getInterpolatedLayers())
         ):
@@ -77,10 +81,10 @@ class PropagateAnchorsIFilter(BaseIFilter):
                     interpolatedLayer or glyphSet,
                     glyph,
                     self.context.processed[i],
-                    self.context.modified,
+                    self.context.propagated,
                     self.context.categories,
                 )
-        return len(self.context.modified) > before
+        return len(self.context.propagated) > before
 
 
 def _propagate_glyph_anchors(glyphSet, composite, processed, modified, categories):
